@@ -102,8 +102,11 @@ theorem c06_create {n : Nat} {a : Bool} {s : State} (h : Reachable n a s) {i : N
   simp only [step, hv, if_true]
   exact ⟨C.2.1, C.2.2.1, C.2.2.2.2.2.2.1, C.2.2.2.2.2.2.2.1, C.2.2.2.2.2.2.2.2.2, C.2.2.2.1⟩
 
-/-- as-is witness (pinned commit): three coroutines made ready in the order 1, 2, 3 under `create_suspend_point` came out as
-3, 2, 1 — dropping the result resumed them in the opposite order to the same calls without the wrapper -/
+/-- as-is fact (pinned commit, before `/repo` commit 34c6158): three coroutines made ready in the order 1, 2, 3 under
+`create_suspend_point` came out as 3, 2, 1 — dropping the result resumed them in the opposite order to the same calls without
+the wrapper.  Each of them is still held (and later resumed) exactly once, so this is *not* a violation of C06, whose statement
+has no order clause; the order is what C05 (FIFO) demands: `c05_asis_create_reversed` in `Props/C05.lean`.  Kept here because the
+model and the correspondence (`corpus/c06_create_order.txt`) follow the repaired order. -/
 theorem c06_create_asis_reversed : handles (createAsIs (init 1 true) 0 [1, 2, 3] none) 0 = [3, 2, 1] := by decide
 
 /-- `sp << h` appends `h`, whatever the current count (inline, inline→heap, heap, heap doubling); no other
@@ -643,7 +646,7 @@ theorem c06_value {n : Nat} {a : Bool} {s : State} (h : Reachable n a s) (op : O
 /-- The unrepaired `operator<<` / move-assignment applied to the object itself (`sp = std::move(sp)` with two
 handles): the loop re-adds the object's own handles (spilling to the heap on the way), then resets the count —
 both coroutines are dropped (held nowhere, never resumed) and the block allocated on the way is leaked.
-Replayed on the headers in corpus/c06_selfassign.txt; repaired by the `fix:` commit (self-merge is a no-op). -/
+Replayed on the headers in corpus/c06_selfassign.txt; repaired by `/repo` commit a20835f (self-merge is a no-op). -/
 theorem c06_asis_self_assign_loses_handles :
     let s := runAsIs (init 1 false) [Op.ctorH 0 1, Op.addH 0 2, Op.assign 0 0]
     s.given = [1, 2] ∧ handles s 0 = [] ∧ resumed s = [] ∧ s.queue = [] ∧ s.popped = []
@@ -653,7 +656,8 @@ theorem c06_asis_self_assign_loses_handles :
 coroutine 99 running under `coro_queue`): the handle is handed in once, the symmetric transfer resumes 99 and the
 guard — which only looked at the remaining handles — queues it as well; when the coroutine ends and the queue is
 flushed it is resumed a second time.  Normal mode (coroutine 100 outside `coro_queue`): both resumptions happen inside
-the `co_await`.  Replayed on the headers in corpus/c06_ownhandle_last.txt; repaired by the `fix:` commit. -/
+the `co_await`.  Replayed on the headers in corpus/c06_ownhandle_last.txt; repaired by `/repo` commit e49d44d ("fix: co_await on
+a suspend point whose last handle is the awaiting coroutine resumed it twice": the guard starts from the popped handle). -/
 theorem c06_asis_await_own_handle_last_resumed_twice :
     resumed (runAsIs (init 1 true) [Op.ctorH 0 99, Op.await 0 99, Op.finish]) = [99, 99]
     ∧ resumed (runAsIs (init 1 false) [Op.ctorH 0 100, Op.await 0 100]) = [100, 100]
